@@ -30,6 +30,12 @@ def run(res, tier, seed, replay):
     for r in recs2:
         r["sort_deps"] = True
     recs = recs + recs2
+    # unions with more than 30 alternatives: from 31 futures on try_join_all hands out results in order, so a cancellation
+    # observed by a later alternative used to be held back until the earlier ones had completed (F22)
+    if not replay:
+        recs3, h3 = al.run_async("c12", [("wideunion", 255, 3 * k)], seed + 89, ["--max-k", "90"])
+        hangs += h3
+        recs = recs + recs3
     al.judge(recs)
     npoints, inflight_cancels, in_sort = 0, 0, 0
     for r in recs:
